@@ -1394,6 +1394,10 @@ class Engine:
         elif kind == "map":
             _, name = loc
             m = s.heap.get(name)
+            if m is None and name.startswith("H.") and name.count(".") == 2 and not name.startswith("H.$"):
+                # a field map the caller has not touched yet: materialise it, then havoc
+                _, cls_, attr_ = name.split(".")
+                m = field_map(s, cls_, attr_)[1]
             if m is None:
                 from .values import MAP_SORTS
 
